@@ -181,6 +181,7 @@ impl Prop for C07 {
             await_breaks: vec![],
             stop_cmds: vec![],
             trace_via_command: false,
+            reply_breaks: vec![],
         };
         let all = match ctx.tier {
             Tier::Thorough => mode_pick >= 1 && mode_pick <= 6,
